@@ -205,9 +205,9 @@ CHECKS = {
         "level": "exploration", "floor": 20,
         "rule": "unit: pools of 60 revisions built only through the system's constructors (new, new_updated, new_deleted, new_resolved, empty/char-code digests, chains up to index 120): Revision::from(r.to_string()) == r and prints identically, equal Hash when equal, child/deleted/resolved identifiers equal the canonical "
                 "formula (index+1, digest, first 7 hex of sha256(parent text)) and depend only on (digest, parent text); for all pairs and triples: exactly one of <,==,>, == iff equal strings, transitivity. system: two replicas in the same state apply the same updates independently -> identical revision sets; after exchanging their "
-                "(different) blocks nothing is in conflict and no leaf is added. Every revision string any history exposes must round-trip. non-trivial = pool with index >=10 and a marker / twin history with two heads after exchange." + DISTINCT,
+                "(different) blocks nothing is in conflict and no leaf is added. Every revision string any history exposes must round-trip, and every recorded (revision, parent) pair must satisfy the canonical formula (also for revisions created by snapshots and resolutions while arrays are in conflict). non-trivial = pool with index >=10 and a marker / twin history with two heads after exchange." + DISTINCT,
         "assumptions": ASSUME_COMMON,
-        "jobs": [mode("pools", "c19unit", (480, 16000)), mode("twins", "c19twins", (6400, 160000)), engine("roundtrip", "general", "any", (320, 16000))],
+        "jobs": [mode("pools", "c19unit", (480, 16000)), mode("twins", "c19twins", (6400, 160000)), engine("roundtrip", "general", "any", (320, 16000)), engine("snapshots-in-conflict", "maint", "any", (480, 16000))],
     },
 }
 
